@@ -33,6 +33,7 @@ type State struct {
 	snaps map[string]*State
 	nobj  int // number of objects allocated on this path since nobjBase
 	nobjBase string
+	formal bool // heap components are the formal parameters of a heap-reading spec function
 	path  []string
 	dead  bool
 }
@@ -191,12 +192,22 @@ func (w *World) comp(st *State, sort string) (name, cur string) {
 	if _, ok := w.compSorts[name]; !ok {
 		w.compSorts[name] = sort
 	}
+	cur = w.compByName(st, name)
+	return
+}
+
+// compByName returns the current term of a heap component (its initial value if it was never written).
+func (w *World) compByName(st *State, name string) string {
 	cur, ok := st.heap[name]
 	if !ok {
-		cur = name + "_0"
+		if st.formal {
+			cur = "hp_" + name
+		} else {
+			cur = name + "_0"
+		}
 		st.heap[name] = cur
 	}
-	return
+	return cur
 }
 
 func isStructT(t types.Type) bool {
